@@ -65,7 +65,7 @@ ALIAS2 = [(1, 1), (2, 1), (1, 2), (3, 2)]
 
 def jobs(seed=0):
     J = []
-    P = ["C08", "C13", "C11", "C18", "C15", "C07"]
+    P = ["C08", "C13", "C11", "C18", "C07"]
     for fn, (src, contract, repl) in FUNCS3.items():
         seen = set()
         for n, sh in enumerate(QUICK3):
@@ -147,7 +147,7 @@ def norm_job(rs, as_, st, alias, tier, k=None, gq=0):
     if k is not None:
         d["NRM_K"] = k
         nm += ".k%02d" % k
-    return Job(name=nm, props=["C05", "C13", "C11", "C18", "C15"], shape="S3", sources=["arithmetic/vec_znx.c"],
+    return Job(name=nm, props=["C05", "C13", "C11", "C18"], shape="S3", sources=["arithmetic/vec_znx.c"],
                harness="vec_norm.c", entry="h_vec_znx_normalize_base2k_ref",
                enforce=[("vec_znx_normalize_base2k_ref", "vec_znx_normalize__c")],
                replace=[("znx_normalize", "znx_normalize__c_lean"), K_REF["zero"]], defines=d,
@@ -169,7 +169,7 @@ def rot_vec_jobs(seed=0):
                 if alias == 1 and (sh[0] == 0 or sh[1] == 0):
                     continue
                 j = mk(fn, "arithmetic/vec_znx.c", contract, repl, (sh[0], sh[1], None), stride_pick(seed, 2, n + alias), alias, tier,
-                       ["C09", "C08", "C13", "C11", "C18", "C15"])
+                       ["C09", "C08", "C13", "C11", "C18"])
                 j.harness = "vec_rot.c"
                 j.cbmc_flags = j.cbmc_flags + ["--no-signed-overflow-check"]
                 j.bound_note += "; in-place kernel contract assumed (bounded S4 evidence)"
@@ -212,7 +212,7 @@ def big_jobs(seed=0):
                 rext = max(rs, as_) if alias == 1 else (max(rs, bs) if alias == 2 else rs)
                 d = {"RS": rs, "AS": as_, "BS": bs, "REXT": rext, "RM": 1, "RA": 0, "AM": am, "AA": aa, "BM": bm, "BA": ba, "ALIAS": alias}
                 J.append(Job(name="big.%s.r%da%db%d.s%d%d_%d%d.al%d" % (nm, rs, as_, bs, am, aa, bm, ba, alias),
-                             props=["C08", "C13", "C11", "C18", "C15"], shape="S3", sources=["arithmetic/vec_znx_big.c"],
+                             props=["C08", "C13", "C11", "C18", "C12"], shape="S3", sources=["arithmetic/vec_znx_big.c"],
                              harness="vec_big.c", entry="h_" + nm, enforce=[(fn, c)], replace=[(callee, cc)], defines=d,
                              functions=[fn], timeout=600,
                              bound_note="limb counts (%d,%d,%d), small strides N*%d+%d/N*%d+%d, alias %d; callee = dispatcher slot contract"
